@@ -19,8 +19,8 @@ from mc.lib7z import Collect, install_key_cache, seams, tree_snapshot
 MODULE = "mc.checks.c12"
 PW = "s3cr3t-ß"
 OPS = ["getnames", "list", "getinfo", "archiveinfo", "needs_password", "test", "testzip", "xall_f", "xall_p", "x_T1", "x_T2", "reset"]
-DECODING = {"testzip", "xall_f", "xall_p", "x_T1", "x_T2"}
-EXTRACTING = {"xall_f", "xall_p", "x_T1", "x_T2"}
+DECODING = {"testzip", "xall_f", "xall_p", "x_T1", "x_T2", "xall_here"}
+EXTRACTING = {"xall_f", "xall_p", "x_T1", "x_T2", "xall_here"}
 ENDINGS = ["close", "with", "exc"]
 PER_CALL_S = 20.0
 
@@ -61,6 +61,9 @@ def build_archives():
     # the decoder is rebuilt from the folder's coder list every time the folder is decoded again (seeded change C12e)
     out["AB"] = {"blob": write(chains.py_filters("X86+LZMA2"), m, header="encoded"), "password": None, "members": m}
     out["AD"] = {"blob": write(chains.py_filters("DELTA+LZMA2"), m), "password": None, "members": m}
+    # a member named like the archive file itself (an older generation of a backup inside the newer one)
+    mo = m + [("arch.7z", b"older generation of this archive " * 3)]
+    out["AO"] = {"blob": write(copy, mo), "password": None, "members": mo}
     # no streams at all: a directory and an empty file, written by the reference writer without a MainStreamsInfo section
     # (what 7-Zip writes for such a tree; py7zr's own writer always emits the section)
     from mc.ref import ref7z
@@ -121,6 +124,10 @@ def do_op(z, op, arch, wd):
             else:
                 z.extract(targets=t1 if op == "x_T1" else t2, factory=f)
             return ("ok", sorted((n, digest(d)) for n, d in f.as_list()))
+        if op == "xall_here":
+            # extraction into the directory that holds the archive itself (the archive has a member named like it)
+            z.extractall(path=wd)
+            return ("ok", sorted(n for n in os.listdir(wd) if n not in ("arch.7z", "out")))
         if op == "xall_p":
             dest = os.path.join(wd, "out")
             shutil.rmtree(dest, ignore_errors=True)
@@ -273,6 +280,8 @@ def run_history(ctx, hist, wd):
                 viol.append(({"symptom": "intact-not-certified", "op": "test"}, f"history {list(hist)}: test() on an intact archive -> {_short(last)}"))
             elif op == "testzip" and last != ("ok", None):
                 viol.append(({"symptom": "intact-not-certified", "op": "testzip"}, f"history {list(hist)}: testzip() on an intact archive -> {_short(last)}"))
+            elif op == "xall_here":
+                pass  # (no differential oracle: judged by the archive's digest - it must not be touched - and by what follows)
             elif last != fresh[op]:
                 viol.append(({"symptom": "differs-from-fresh", "op": op, "prev_decoding": _prev_decoding(hist), "after_reset": len(hist) > 1 and hist[-2] == "reset"},
                              f"history {list(hist)}: {op} -> {_short(last)} but a freshly opened archive gives {_short(fresh[op])}"))
@@ -338,6 +347,8 @@ def main(tier="quick", seed=0, only=None):
     for mode in ("path", "bytesio"):
         configs.append(("AN", mode, OPS, min(depth, 4), None, True))
     configs.append(("AB", "path", OPS, min(depth, 5), None, True))
+    for mode in ("path", "fileobj"):
+        configs.append(("AO", mode, ["getnames", "testzip", "xall_f", "xall_here", "reset"], min(depth, 4), None, True))
     configs.append(("AD", "bytesio", OPS, min(depth, 4), None, True))
     configs.append(("A3", "path", OPS, depth, 8, True))  # small extraction chunk: several decompress() rounds per member
     # soundness cross-check of the state merging: the same language with dedup OFF (every history is its own state)
@@ -381,7 +392,7 @@ def main(tier="quick", seed=0, only=None):
         rule=(
             f"BFS over call histories of length <= {depth} in the property's language (extract/extractall after a decoding call only after "
             "reset(); test/testzip anywhere) over 12 calls, on 7 intact archives (1 folder, 3 folders from append sessions, LZMA2 solid "
-            "with an empty member, Copy+7zAES, BCJ+LZMA2 and Delta+LZMA2 (depth <= 5 / 4), and a reference-written archive without any stream: depth <= 4) x opened by path / BytesIO / file object (+ one configuration with an 8-byte extraction "
+            "with an empty member, Copy+7zAES, BCJ+LZMA2 and Delta+LZMA2 (depth <= 5 / 4), an archive holding a member named like itself with extraction into its own directory in the alphabet, and a reference-written archive without any stream: depth <= 4) x opened by path / BytesIO / file object (+ one configuration with an 8-byte extraction "
             "chunk), and over {getnames,test,testzip,extractall,reset} on 3 damaged copies. Every history is replayed on a fresh real "
             "SevenZipFile three times (ended by close, by with-exit, by an injected exception). Oracles: last call's result == result on a "
             "freshly opened archive; test() is True/None and testzip() None on intact archives; damaged copies are never certified; SHA-256 of the archive unchanged after each ending; watchdog. "
